@@ -33,8 +33,20 @@ PROPS = {
     "C06": dict(title="Decoding accepts exactly the walks", level="other", bounded=["C06"], design="8/C06",
                 explanation="decode raises ValueError exactly on non-walks / check mismatch.",
                 technique="exceptional postcondition of decode + bounded run-time contract checking"),
-    "C07": dict(title="The path check is the documented VT function", level="other", bounded=["C07"], design="8/C07",
-                explanation="set_vt == vt_spec; single edits change the check.",
+    "C07": dict(title="The path check is the documented VT function", level="proof", bounded=["C07"], design="8/C07",
+                proof=["dsw.spiderweb.set_vt", "dsw.operation.number_to_dna#int", "harness.c07_substitution_changes_check",
+                       "harness.c07_insertion_changes_check", "harness.c07_deletion_changes_check",
+                       "lemma.ssum_split", "lemma.ssum_ext", "lemma.ssum_zero_iff", "lemma.ipow_mono", "lemma.pv_store_frame", "lemma.pv_zero",
+                       "lemma.pv_leading_zeros", "lemma.pv_ext"],
+                explanation="Contract on the real set_vt for strands of every length (incl. empty) and every check length n >= 1: n nucleotides, first "
+                            "symbol = code sum mod 4, remaining n-1 symbols = base-4 digits of (sum of ascent positions) mod 4^(n-1), ValueError exactly "
+                            "on a foreign character, no other exception (the dtype of numpy.array([]) is part of the symbolic value: an unfixed "
+                            "float index is a failed obligation); sum(where(mask)[0]) is tied to the recursive ascent-sum spec by a ghost induction; "
+                            "the consequence (every single substitution / C,G,T insertion / C,G,T deletion at every position changes the first check "
+                            "symbol) is three client harnesses over the contract.",
+                claim="Deductive: all obligations discharged, no bound on strand length, check length or edit position. The last half-sentence "
+                      "('decoding with the original check rejects it') is decode's check-comparison branch, decided under C06.",
+                note="Trusted: numpy array/where/sum/slicing contracts (DESIGN 3), codes_of definition.",
                 technique="postcondition of set_vt against vt_spec + edit lemmas + bounded exhaustive short strands"),
     "C08": dict(title="Repair recovers the original strand for separated interior edits", level="other", bounded=["C08"], design="8/C08",
                 explanation="End-to-end repair claim, bounded only (DESIGN 8/C08).",
